@@ -251,3 +251,7 @@ M("thr-all-form", DEN, _THR_OLD, "    min_output = np.min(output)\n    if np.all
 OK("rdm-npdot", DEN, "    density = one_density_matrix.dot(deriv_orb_eval_two)\n", "    density = np.dot(one_density_matrix, deriv_orb_eval_two)\n", "C06,C15,C19")
 M("rdm-inplace-alias", DEN, "    density = one_density_matrix.dot(deriv_orb_eval_two)\n    density *= deriv_orb_eval_one\n",
   "    density = one_density_matrix.dot(deriv_orb_eval_two)\n    deriv_orb_eval_two *= 2\n    density *= deriv_orb_eval_one\n    density *= 0.5\n", "C06")
+B4 = "gbasis/base_four_symm.py"
+B1 = "gbasis/base_one.py"
+M("b1-identity-sp", B1, '                transform = generate_transformation(\n                    cont.angmom, cont.angmom_components_cart, cont.angmom_components_sph, "left"\n                )\n                # Apply the transform.', '                if cont.angmom < 2:\n                    transform = np.identity(cont.num_cart)\n                else:\n                    transform = generate_transformation(\n                        cont.angmom, cont.angmom_components_cart, cont.angmom_components_sph, "left"\n                    )\n                # Apply the transform.', "C09")
+OK("b1-identity-s-only", B1, '                transform = generate_transformation(\n                    cont.angmom, cont.angmom_components_cart, cont.angmom_components_sph, "left"\n                )\n                # Apply the transform.', '                if cont.angmom == 0:\n                    transform = np.identity(cont.num_cart)\n                else:\n                    transform = generate_transformation(\n                        cont.angmom, cont.angmom_components_cart, cont.angmom_components_sph, "left"\n                    )\n                # Apply the transform.', "C09,C13,C16,C11")
